@@ -153,6 +153,27 @@ PROPS = {
                             "the unbuffered case is proved (C18_passthrough_unbuffered)",
                             "F-C18-1: a request-phase redirect or drop is answered with 200 (open finding)"],
     },
+    "C06": {
+        "engines": [{"name": "conc", "quick": 60, "thorough": 1500, "shards": 4, "race": True},
+                    {"name": "tfid", "quick": 6000, "thorough": 200000, "shards": 4, "race": True}],
+        "nontrivial": lambda l, v: "mismatch=0" in l or "|||" in l,
+        "rule": "conc (binary built with -race): a generated rule set (profiles ctl/cache/acct/api; every other scenario adds a "
+                "rule with three static exclusions whose targets are removed at run time by only some requests) with three "
+                "request variants; each variant alone on a fresh WAF gives the expected outcome; then 4-15 goroutines x 20-79 "
+                "transactions on ONE shared WAF while two goroutines keep building, using and closing WAFs with the same "
+                "patterns (shared memoize cache). Every concurrent outcome must equal the sequential one, the race detector "
+                "must stay silent, nothing may panic; the sequential outcome of variant 0 is also compared with the Lean engine "
+                "model. tfid: per round two WAFs using the same two fresh transformation chains in opposite order are built "
+                "concurrently (racing on the global transformation-id table), then probed; both outcomes must equal the Lean "
+                "model's. Non-trivial = scenario completed.",
+        "modelled": "proved: non-interference of transactions that write only their own state, for every interleaving; the "
+                    "memoize Do/Release protocol at the granularity of its atomic operations for every interleaving. Not "
+                    "modelled: the Go memory model, sync.Pool, the audit writers' locks (C19 covers line integrity).",
+        "assumptions": ["data races and schedule-dependent behaviour are exhibited only by the runs the Go scheduler produces "
+                        "under the race detector; a silent run is evidence, not proof, of the frame condition"],
+        "open_statements": ["the frame condition itself (no transaction step writes shared WAF state) is not a theorem about the Go "
+                            "code; it is what `conc` checks"],
+    },
     "C07": {
         "engines": [{"name": "nopanic", "quick": 6000, "thorough": 400000, "shards": 12}],
         "nontrivial": lambda l, v: "cfg=ok" in l,
